@@ -93,3 +93,741 @@ def install_slice_contracts():
     for klass in (S.Slice, S.Sample):
         klass.indices = icontract.ensure(indices_consistent, error=SliceContractBroken)(klass.indices)
         klass.count = icontract.ensure(count_consistent, error=SliceContractBroken)(klass.count)
+
+
+# ------------------------------------------------------------------ RP66V1 pFile (C01, C02)
+def install_rp66v1_file_contracts():
+    """Contracts on the live RP66V1 physical-file classes:
+
+    FileLogicalData  invariant: exactly one of ``_bytes`` / ``logical_data`` is set; once sealed the length is frozen.
+                     add_bytes grows the buffer by exactly len(by); seal() keeps exactly the accumulated bytes.
+    FileRead         after _seek_and_read_next_logical_record_segment_header and after get_file_logical_data the
+                     segment header lies inside the current visible record
+                     (vr.position + 4 <= lrsh.position and lrsh.next_position <= vr.next_position);
+                     _read_full_logical_data returns at most logical_data_length bytes and leaves the file cursor
+                     inside the current segment; get_file_logical_data returns a sealed object for the requested
+                     position with at most ``length`` bytes when length >= 0.
+    """
+    if 'rp66v1_file' in _installed:
+        return
+    _installed.add('rp66v1_file')
+    import weakref
+    import icontract
+    from TotalDepth.RP66V1.core import pFile
+
+    class RP66V1FileContractBroken(Exception):
+        pass
+
+    sealed_len = weakref.WeakKeyDictionary()
+
+    # ---- FileLogicalData
+    def fld_one_representation(self):
+        return _fld_one_representation(self)
+
+    @_guarded
+    def _fld_one_representation(self):
+        COUNTS['FileLogicalData.invariant'] += 1
+        b, ld = getattr(self, '_bytes', None), getattr(self, 'logical_data', None)
+        if (b is None) == (ld is None):
+            _breach('FileLogicalData.invariant', 'not exactly one of _bytes (%s) and logical_data (%s) is set' % (
+                type(b).__name__, type(ld).__name__))
+        elif b is None:
+            n = len(ld.bytes)
+            was = sealed_len.setdefault(self, n)
+            if was != n:
+                _breach('FileLogicalData.invariant', 'sealed with %d bytes, now holds %d' % (was, n))
+
+    def fld_add_grows_by_len(self, by, OLD):
+        return _fld_add_grows_by_len(self, by, OLD)
+
+    @_guarded
+    def _fld_add_grows_by_len(self, by, OLD):
+        COUNTS['FileLogicalData.add_bytes'] += 1
+        if self._bytes is None or len(self._bytes) != OLD.tdv_len + len(by) or bytes(self._bytes[OLD.tdv_len:]) != bytes(by):
+            _breach('FileLogicalData.add_bytes', 'held %d bytes, added %d, now %s' % (
+                OLD.tdv_len, len(by), None if self._bytes is None else len(self._bytes)))
+
+    def fld_seal_keeps_bytes(self, OLD):
+        return _fld_seal_keeps_bytes(self, OLD)
+
+    @_guarded
+    def _fld_seal_keeps_bytes(self, OLD):
+        COUNTS['FileLogicalData.seal'] += 1
+        if self._bytes is not None or self.logical_data is None or self.logical_data.bytes != OLD.tdv_bytes:
+            _breach('FileLogicalData.seal', 'seal() of %d accumulated bytes left %s' % (
+                len(OLD.tdv_bytes), None if self.logical_data is None else len(self.logical_data.bytes)))
+        elif self.logical_data.index != 0:
+            _breach('FileLogicalData.seal', 'sealed LogicalData does not start at index 0 (%r)' % self.logical_data.index)
+
+    def _len_of(self):
+        return len(self._bytes) if self._bytes is not None else -1
+
+    def _bytes_of(self):
+        return bytes(self._bytes) if self._bytes is not None else None
+
+    K = pFile.FileLogicalData
+    K.add_bytes = icontract.snapshot(_len_of, name='tdv_len')(
+        icontract.ensure(fld_add_grows_by_len, error=RP66V1FileContractBroken)(K.add_bytes))
+    K.seal = icontract.snapshot(_bytes_of, name='tdv_bytes')(
+        icontract.ensure(fld_seal_keeps_bytes, error=RP66V1FileContractBroken)(K.seal))
+    icontract.invariant(fld_one_representation, error=RP66V1FileContractBroken)(K)
+
+    # ---- FileRead cursor containment
+    def _containment(self, name):
+        vr, sh = self.visible_record, self.logical_record_segment_header
+        if not (vr.position + pFile.VisibleRecord.NUMBER_OF_HEADER_BYTES <= sh.position and sh.next_position <= vr.next_position):
+            _breach(name, 'segment header [0x%x, 0x%x) is not inside the current visible record [0x%x + 4, 0x%x)' % (
+                sh.position, sh.next_position, vr.position, vr.next_position))
+            return False
+        return True
+
+    def fr_header_inside_visible_record(self):
+        return _fr_header_inside_visible_record(self)
+
+    @_guarded
+    def _fr_header_inside_visible_record(self):
+        COUNTS['FileRead.seek_next_header'] += 1
+        _containment(self, 'FileRead.seek_next_header')
+
+    def fr_read_inside_segment(self, result):
+        return _fr_read_inside_segment(self, result)
+
+    @_guarded
+    def _fr_read_inside_segment(self, result):
+        COUNTS['FileRead.read_full_logical_data'] += 1
+        sh = self.logical_record_segment_header
+        ldl = sh.logical_data_length
+        tell = self.file.tell()
+        if len(result) > ldl:
+            _breach('FileRead.read_full_logical_data', 'returned %d bytes from a segment with %d logical data bytes' % (len(result), ldl))
+        if not (sh.logical_data_position <= tell <= sh.next_position) or tell != sh.logical_data_position + ldl:
+            _breach('FileRead.read_full_logical_data', 'file cursor 0x%x after reading the body of the segment [0x%x, 0x%x) with %d logical data bytes' % (
+                tell, sh.position, sh.next_position, ldl))
+        _containment(self, 'FileRead.read_full_logical_data')
+
+    def fr_fetch_consistent(self, position, offset, length, result):
+        return _fr_fetch_consistent(self, position, offset, length, result)
+
+    @_guarded
+    def _fr_fetch_consistent(self, position, offset, length, result):
+        COUNTS['FileRead.get_file_logical_data'] += 1
+        if result._bytes is not None or result.logical_data is None:
+            _breach('FileRead.get_file_logical_data', 'result is not sealed')
+        elif length >= 0 and len(result.logical_data.bytes) > length:
+            _breach('FileRead.get_file_logical_data.length', 'offset=%d length=%d returned %d bytes' % (
+                offset, length, len(result.logical_data.bytes)))
+        if result.position.vr_position != position.vr_position or result.position.lrsh_position != position.lrsh_position:
+            _breach('FileRead.get_file_logical_data', 'result position %s for requested %s' % (result.position, position))
+        if not self.logical_record_segment_header.attributes.is_last:
+            _breach('FileRead.get_file_logical_data', 'returned with the cursor on a segment that is not the last of the record')
+        _containment(self, 'FileRead.get_file_logical_data')
+
+    F = pFile.FileRead
+    F._seek_and_read_next_logical_record_segment_header = icontract.ensure(
+        fr_header_inside_visible_record, error=RP66V1FileContractBroken)(F._seek_and_read_next_logical_record_segment_header)
+    F._read_full_logical_data = icontract.ensure(
+        fr_read_inside_segment, error=RP66V1FileContractBroken)(F._read_full_logical_data)
+    F.get_file_logical_data = icontract.ensure(
+        fr_fetch_consistent, error=RP66V1FileContractBroken)(F.get_file_logical_data)
+
+
+# ------------------------------------------------------------------ LIS.core.PhysRec / TifMarker (C05)
+def install_lis_physrec_contracts(wellformed_files=True):
+    """Postconditions on the live PhysRecRead / TifMarkerRead state named by property C05
+    (_ldIndex/_ldTell/_mustReadHead/startOfLr, tifBack/tifNext/previousTell).
+
+    Class-level (any input): the meaning of the cursor fields - 0 <= _ldIndex <= ldLen, _ldTell counts the bytes of
+    the logical record and equals _ldIndex inside its first physical record, ldLen = prLen - header - trailer fields
+    of the attribute bits, the stream position is exactly PR start + TIF + header + _ldIndex (or the PR end once the
+    trailer is consumed), a sized call never returns more than asked, seekLr forgets everything including the TIF chain.
+    wellformed_files=True adds what only holds for files without PR padding written per LIS-79/TIF: the TIF next
+    pointer equals PR start + 12 + PR length, marker types are 0/1, back <= position < next.
+    Counters: COUNTS['PhysRecRead.<method>'], COUNTS['TifMarkerRead.<method>']."""
+    if 'lis_physrec' in _installed:
+        return
+    _installed.add('lis_physrec')
+    import icontract
+    from TotalDepth.LIS.core import PhysRec as P
+    from TotalDepth.LIS.core import TifMarker as T
+
+    class LisPhysRecContractBroken(Exception):
+        pass
+
+    R = P.PhysRecRead
+    TRAILER_BITS = (0x0200, 0x0400, 0x1000)
+
+    def _tiflen(self):
+        return 12 if (self.tif is not None and self.tif.hasTif) else 0
+
+    def _state(self, where):
+        """The cursor invariant shared by all read-side postconditions."""
+        if self.isEOF:
+            return
+        if not 0 <= self._ldIndex <= self.ldLen:
+            _breach(where, 'index outside the physical record: _ldIndex=%r ldLen=%r' % (self._ldIndex, self.ldLen))
+        if self._ldTell < self._ldIndex:
+            _breach(where, '_ldTell=%r < _ldIndex=%r' % (self._ldTell, self._ldIndex))
+        if self._isLrStart and self._ldTell != self._ldIndex:
+            _breach(where, 'first PR of the logical record but _ldTell=%r != _ldIndex=%r' % (self._ldTell, self._ldIndex))
+        if self.startOfLr > self.startPrPos:
+            _breach(where, 'startOfLr=%r after startPrPos=%r' % (self.startOfLr, self.startPrPos))
+        if self.prLen > 0:
+            tl = 2 * sum(1 for b in TRAILER_BITS if self.prAttr & b)
+            if self.ldLen != self.prLen - 4 - tl:
+                _breach(where, 'ldLen=%r but prLen=%r attributes=0x%04x (trailer %d)' % (self.ldLen, self.prLen, self.prAttr, tl))
+            here = self.stream.tell()
+            if not self._mustReadHead:
+                want = self.startPrPos + _tiflen(self) + 4 + self._ldIndex
+                if here != want:
+                    _breach(where, 'stream at %d, cursor says %d (PR at %d, _ldIndex=%d)' % (here, want, self.startPrPos, self._ldIndex))
+            elif not self.pad_modulo:
+                want = self.startPrPos + _tiflen(self) + self.prLen
+                if here != want:
+                    _breach(where, 'trailer consumed but stream at %d, PR ends at %d' % (here, want))
+
+    # ---- _readHead
+    def lisphys_head_ok(self):
+        return _lisphys_head_ok(self)
+
+    @_guarded
+    def _lisphys_head_ok(self):
+        COUNTS['PhysRecRead._readHead'] += 1
+        if self.isEOF:
+            return
+        if self._ldIndex != 0 or self._mustReadHead:
+            _breach('PhysRecRead._readHead', 'after a header: _ldIndex=%r _mustReadHead=%r' % (self._ldIndex, self._mustReadHead))
+        if self.stream.tell() != self.startPrPos + _tiflen(self) + 4:
+            _breach('PhysRecRead._readHead', 'stream at %d after the header of the PR at %d' % (self.stream.tell(), self.startPrPos))
+        if self._isLrStart and self.startOfLr != self.startPrPos:
+            _breach('PhysRecRead._readHead', 'first PR of a logical record at %d but startOfLr=%d' % (self.startPrPos, self.startOfLr))
+        _state(self, 'PhysRecRead._readHead')
+        if wellformed_files and _tiflen(self) and self.tif.tifType == 0:
+            if self.tif.tifNext != self.startPrPos + 12 + self.prLen:
+                _breach('PhysRecRead._readHead', 'TIF next 0x%x but PR at 0x%x has length %d' % (self.tif.tifNext, self.startPrPos, self.prLen))
+
+    # ---- _readTail
+    def lisphys_tail_ok(self):
+        return _lisphys_tail_ok(self)
+
+    @_guarded
+    def _lisphys_tail_ok(self):
+        COUNTS['PhysRecRead._readTail'] += 1
+        if not self._mustReadHead:
+            _breach('PhysRecRead._readTail', '_mustReadHead not set after the trailer')
+        _state(self, 'PhysRecRead._readTail')
+
+    # ---- __readOrSkip
+    def lisphys_ros_ok(self, theSize):
+        return _lisphys_ros_ok(self, theSize)
+
+    @_guarded
+    def _lisphys_ros_ok(self, theSize):
+        COUNTS['PhysRecRead.__readOrSkip'] += 1
+        if self.isEOF:
+            return
+        if theSize < 0 and (not self._mustReadHead or self.prAttr & 1):
+            _breach('PhysRecRead.__readOrSkip', 'read-all left _mustReadHead=%r successor=%r' % (self._mustReadHead, bool(self.prAttr & 1)))
+        _state(self, 'PhysRecRead.__readOrSkip')
+
+    # ---- readLrBytes / skipLrBytes
+    def lisphys_read_ok(self, theSize, theLd, result):
+        return _lisphys_read_ok(self, theSize, theLd, result)
+
+    @_guarded
+    def _lisphys_read_ok(self, theSize, theLd, result):
+        COUNTS['PhysRecRead.readLrBytes'] += 1
+        if result is not None:
+            if not isinstance(result, (bytes, bytearray)):
+                _breach('PhysRecRead.readLrBytes', 'returned %s' % type(result).__name__)
+            elif theSize >= 0 and theLd is None and len(result) > theSize:
+                _breach('PhysRecRead.readLrBytes', 'asked %d got %d bytes' % (theSize, len(result)))
+        _state(self, 'PhysRecRead.readLrBytes')
+
+    def lisphys_skip_ok(self, theSize, result):
+        return _lisphys_skip_ok(self, theSize, result)
+
+    @_guarded
+    def _lisphys_skip_ok(self, theSize, result):
+        COUNTS['PhysRecRead.skipLrBytes'] += 1
+        if not isinstance(result, int) or result < 0 or (theSize >= 0 and result > theSize):
+            _breach('PhysRecRead.skipLrBytes', 'asked %r skipped %r' % (theSize, result))
+        _state(self, 'PhysRecRead.skipLrBytes')
+
+    # ---- skipToNextLr / seekLr
+    def lisphys_next_ok(self, result):
+        return _lisphys_next_ok(self, result)
+
+    @_guarded
+    def _lisphys_next_ok(self, result):
+        COUNTS['PhysRecRead.skipToNextLr'] += 1
+        if self.isEOF:
+            return
+        if self._mustReadHead or self._ldIndex != 0 or self._ldTell != 0 or not self._isLrStart or self.startOfLr != self.startPrPos:
+            _breach('PhysRecRead.skipToNextLr', 'not at the start of a logical record: _mustReadHead=%r _ldIndex=%r _ldTell=%r isLrStart=%r startOfLr=%r startPrPos=%r' % (
+                self._mustReadHead, self._ldIndex, self._ldTell, self._isLrStart, self.startOfLr, self.startPrPos))
+        _state(self, 'PhysRecRead.skipToNextLr')
+
+    def lisphys_seek_ok(self, offset, result):
+        return _lisphys_seek_ok(self, offset, result)
+
+    @_guarded
+    def _lisphys_seek_ok(self, offset, result):
+        COUNTS['PhysRecRead.seekLr'] += 1
+        if result != offset or self.stream.tell() != offset:
+            _breach('PhysRecRead.seekLr', 'seekLr(%r) returned %r, stream at %r' % (offset, result, self.stream.tell()))
+        if not self._mustReadHead or self._ldIndex or self._ldTell or self.isEOF or not self._isLrStart or self.prAttr:
+            _breach('PhysRecRead.seekLr', 'state survives a seek: _mustReadHead=%r _ldIndex=%r _ldTell=%r isEOF=%r prAttr=%r' % (
+                self._mustReadHead, self._ldIndex, self._ldTell, self.isEOF, self.prAttr))
+        if self.tif.previousTell is not None or self.tif.markers() != (0, 0, 0):
+            _breach('PhysRecRead.seekLr', 'TIF chain survives a seek: previousTell=%r markers=%r' % (self.tif.previousTell, self.tif.markers()))
+
+    R._readHead = icontract.ensure(lisphys_head_ok, error=LisPhysRecContractBroken)(R._readHead)
+    R._readTail = icontract.ensure(lisphys_tail_ok, error=LisPhysRecContractBroken)(R._readTail)
+    R._PhysRecRead__readOrSkip = icontract.ensure(lisphys_ros_ok, error=LisPhysRecContractBroken)(R._PhysRecRead__readOrSkip)
+    R.readLrBytes = icontract.ensure(lisphys_read_ok, error=LisPhysRecContractBroken)(R.readLrBytes)
+    R.skipLrBytes = icontract.ensure(lisphys_skip_ok, error=LisPhysRecContractBroken)(R.skipLrBytes)
+    R.skipToNextLr = icontract.ensure(lisphys_next_ok, error=LisPhysRecContractBroken)(R.skipToNextLr)
+    R.seekLr = icontract.ensure(lisphys_seek_ok, error=LisPhysRecContractBroken)(R.seekLr)
+
+    # ---- TifMarkerRead._read: the chain while reading linearly
+    M = T.TifMarkerRead
+
+    def lisphys_tif_before(self):
+        return (self.previousTell, self.tifType, self.tifBack, self.tifNext, self.hasPrevious)
+
+    def lisphys_tif_ok(self, theStream, result, OLD):
+        return _lisphys_tif_ok(self, theStream, result, OLD)
+
+    @_guarded
+    def _lisphys_tif_ok(self, theStream, result, OLD):
+        COUNTS['TifMarkerRead._read'] += 1
+        if not self.hasTif:
+            return
+        if result is None or theStream.tell() != result + 12 or self.previousTell != result:
+            _breach('TifMarkerRead._read', 'marker at %r: stream at %r previousTell=%r' % (result, theStream.tell(), self.previousTell))
+            return
+        prev_tell, _t, _b, prev_next, had_previous = OLD.lisphys_tif_before
+        if had_previous and not self._prPad:
+            if result != prev_next:
+                _breach('TifMarkerRead._read', 'marker read at 0x%x but the previous marker points to 0x%x' % (result, prev_next))
+            if self.tifBack != prev_tell:
+                _breach('TifMarkerRead._read', 'marker at 0x%x points back to 0x%x, previous marker was at 0x%x' % (result, self.tifBack, prev_tell))
+        if wellformed_files:
+            if self.tifType not in (0, 1) or self.tifNext < result + 12 or self.tifBack > result or (result and self.tifBack >= result):
+                _breach('TifMarkerRead._read', 'marker at 0x%x is (%r, 0x%x, 0x%x)' % (result, self.tifType, self.tifBack, self.tifNext))
+
+    def lisphys_tif_reset_ok(self):
+        return _lisphys_tif_reset_ok(self)
+
+    @_guarded
+    def _lisphys_tif_reset_ok(self):
+        COUNTS['TifMarkerRead.reset'] += 1
+        if self.previousTell is not None or self.markers() != (0, 0, 0) or self.hasPrevious:
+            _breach('TifMarkerRead.reset', 'previousTell=%r markers=%r after reset' % (self.previousTell, self.markers()))
+
+    f = icontract.ensure(lisphys_tif_ok, error=LisPhysRecContractBroken)(M._read)
+    M._read = icontract.snapshot(lisphys_tif_before, name='lisphys_tif_before')(f)
+    M.reset = icontract.ensure(lisphys_tif_reset_ok, error=LisPhysRecContractBroken)(M.reset)
+
+
+# ------------------------------------------------------------------ common.Rle / LIS.core.Rle (C16)
+def install_rle_contracts():
+    """RLEItem.add / RLE.add / RLEType01.add postconditions with shadow counters.
+
+    Shadow state lives here, keyed weakly by the live object: the number of add() calls seen (and, for
+    RLEType01, the number of frames added) since the object was first observed, started from the
+    snapshot taken before that first call.  num_values() / totalFrames() must follow the shadow."""
+    if 'rle' in _installed:
+        return
+    _installed.add('rle')
+    import weakref
+    import icontract
+    from TotalDepth.common import Rle as R
+    from TotalDepth.LIS.core import Rle as LR
+
+    class RleContractBroken(Exception):
+        pass
+
+    eps = 2.0 ** -52
+    shadow_n = weakref.WeakKeyDictionary()
+    shadow_frames = weakref.WeakKeyDictionary()
+
+    def close(a, b, *scale):
+        if isinstance(a, float) or isinstance(b, float):
+            m = max([abs(a), abs(b)] + [abs(s) for s in scale])
+            return abs(a - b) <= 4 * eps * m
+        return a == b
+
+    def item_shape(it, where):
+        if not isinstance(it.repeat, int) or it.repeat < 0:
+            _breach(where, 'repeat=%r is not a count >= 0 in %s' % (it.repeat, it))
+        elif len(it) != it.repeat + 1:
+            _breach(where, 'len(item)=%r but repeat+1=%r in %s' % (len(it), it.repeat + 1, it))
+
+    # ---- RLEItem.add(self, v) -> bool
+    def item_state(self):
+        return (self.datum, self.stride, self.repeat)
+
+    def item_add_ok(self, v, result, OLD):
+        return _item_add_ok(self, v, result, OLD)
+
+    @_guarded
+    def _item_add_ok(self, v, result, OLD):
+        COUNTS['RLEItem.add'] += 1
+        datum, stride, repeat = OLD.rle_item_state
+        item_shape(self, 'RLEItem.add')
+        if result:
+            if self.repeat != repeat + 1 or self.datum != datum or (repeat >= 1 and self.stride != stride):
+                _breach('RLEItem.add', 'absorbed %r: (datum,stride,repeat) %r -> %r' % (v, (datum, stride, repeat), item_state(self)))
+            elif not close(self.datum + self.stride * self.repeat, v, self.datum, self.stride * self.repeat):
+                _breach('RLEItem.add', 'absorbed %r but the run %s now ends at %r' % (v, self, self.datum + self.stride * self.repeat))
+        elif item_state(self) != (datum, stride, repeat):
+            _breach('RLEItem.add', 'refused %r but changed %r -> %r' % (v, (datum, stride, repeat), item_state(self)))
+
+    R.RLEItem.add = icontract.snapshot(item_state, name='rle_item_state')(
+        icontract.ensure(item_add_ok, error=RleContractBroken)(R.RLEItem.add))
+
+    # ---- RLE.add(self, v)
+    def rle_state(self):
+        return (self.num_values(), len(self.rle_items))
+
+    def rle_add_ok(self, v, OLD):
+        return _rle_add_ok(self, v, OLD)
+
+    @_guarded
+    def _rle_add_ok(self, v, OLD):
+        COUNTS['RLE.add'] += 1
+        n0, items0 = OLD.rle_state
+        want = shadow_n.get(self, n0) + 1
+        shadow_n[self] = want
+        n = self.num_values()
+        if n != want:
+            _breach('RLE.add', 'num_values()=%r after %d values were added (shadow count) adding %r: %s' % (n, want, v, self))
+        if len(self.rle_items) - items0 not in (0, 1):
+            _breach('RLE.add', 'number of runs went %d -> %d on one add' % (items0, len(self.rle_items)))
+        if self.rle_items:
+            item_shape(self.rle_items[-1], 'RLE.add')
+        if self.function is None and isinstance(v, (int, float)) and not isinstance(v, bool):
+            last = self.last()
+            if last is None or not close(last, v, self.rle_items[-1].datum):
+                _breach('RLE.add', 'added %r but last()=%r: %s' % (v, last, self))
+
+    R.RLE.add = icontract.snapshot(rle_state, name='rle_state')(
+        icontract.ensure(rle_add_ok, error=RleContractBroken)(R.RLE.add))
+
+    # ---- RLEType01.add(self, tellLrPos, numFrameS, xAxisValue)
+    def t01_state(self):
+        return (self.num_values(), self.totalFrames())
+
+    def t01_add_ok(self, tellLrPos, numFrameS, xAxisValue, OLD):
+        return _t01_add_ok(self, tellLrPos, numFrameS, xAxisValue, OLD)
+
+    @_guarded
+    def _t01_add_ok(self, tellLrPos, numFrameS, xAxisValue, OLD):
+        COUNTS['RLEType01.add'] += 1
+        n0, f0 = OLD.rle_t01_state
+        want_n = shadow_n.get(self, n0) + 1
+        want_f = shadow_frames.get(self, f0) + numFrameS
+        shadow_n[self] = want_n
+        shadow_frames[self] = want_f
+        if self.num_values() != want_n:
+            _breach('RLEType01.add', 'num_values()=%r after %d records were added (shadow count)' % (self.num_values(), want_n))
+        if self.totalFrames() != want_f:
+            _breach('RLEType01.add', 'totalFrames()=%r but %d frames were added (shadow count)' % (self.totalFrames(), want_f))
+        for it in self.rle_items[-1:]:
+            item_shape(it, 'RLEType01.add')
+            if it.numFrames < 1 and numFrameS >= 1:
+                _breach('RLEType01.add', 'run with %r frames per record' % it.numFrames)
+        if self.function is None and numFrameS >= 1 and want_f == self.totalFrames():
+            for f, off in ((want_f - numFrameS, 0), (want_f - 1, numFrameS - 1)):
+                got = self.tellLrForFrame(f)
+                if tuple(got) != (tellLrPos, off):
+                    _breach('RLEType01.add', 'after add(%r, %r, %r): tellLrForFrame(%d)=%r expected %r' % (
+                        tellLrPos, numFrameS, xAxisValue, f, got, (tellLrPos, off)))
+
+    LR.RLEType01.add = icontract.snapshot(t01_state, name='rle_t01_state')(
+        icontract.ensure(t01_add_ok, error=RleContractBroken)(LR.RLEType01.add))
+
+
+# ------------------------------------------------------------------ LAS.core.LASRead.LASSectionArray (C09, C10)
+def install_las_contracts():
+    """LASSectionArray: after each add_member_line the wrap buffer holds less than one frame, members grow by at most one
+    row and wrapped rows are complete; after finalise the buffers are drained, every channel has one value per pending
+    frame and the absent-value mask of every non-index channel is exactly (data == null)."""
+    if 'las' in _installed:
+        return
+    _installed.add('las')
+    import icontract
+    import numpy as np
+    from TotalDepth.LAS.core import LASRead as LR
+
+    class LASContractBroken(Exception):
+        pass
+
+    def las_members_before(self):
+        return len(self.members)
+
+    def las_line_ok(self, line_number, line, OLD):
+        return _las_line_ok(self, line_number, line, OLD)
+
+    @_guarded
+    def _las_line_ok(self, line_number, line, OLD):
+        COUNTS['LASSectionArray.add_member_line'] += 1
+        n = len(self._mnemonics_units)
+        b = len(self._unwrap_buffer)
+        grown = len(self.members) - OLD.las_members_before
+        if self._wrap:
+            if b >= n:
+                _breach('LASSectionArray.add_member_line',
+                        'wrap buffer holds a complete frame after line %d: buffer_len=%d frame_size=%d' % (line_number, b, n))
+            if grown == 1 and len(self.members[-1]) != n:
+                _breach('LASSectionArray.add_member_line',
+                        'wrapped frame of %d values stored for frame_size=%d' % (len(self.members[-1]), n))
+        elif b:
+            _breach('LASSectionArray.add_member_line', 'unwrapped mode but buffer_len=%d' % b)
+        if grown not in (0, 1):
+            _breach('LASSectionArray.add_member_line', 'members changed by %d on one line' % grown)
+        if grown == 0 and not self._wrap and line.strip():
+            _breach('LASSectionArray.add_member_line', 'unwrapped data line %d stored no row' % line_number)
+
+    def las_pending_frames(self):
+        return len(self.members) + (1 if self._unwrap_buffer else 0)
+
+    def las_finalised(self, OLD):
+        return _las_finalised(self, OLD)
+
+    @_guarded
+    def _las_finalised(self, OLD):
+        COUNTS['LASSectionArray.finalise'] += 1
+        pending = OLD.las_pending_frames
+        if self._unwrap_buffer or self.members:
+            _breach('LASSectionArray.finalise', 'buffers not drained: buffer_len=%d members=%d' % (
+                len(self._unwrap_buffer), len(self.members)))
+        if pending:
+            lens = [len(ch.array) for ch in self.frame_array.channels]
+            if any(x != pending for x in lens):
+                _breach('LASSectionArray.finalise', 'channel lengths %r for %d pending frames' % (lens[:20], pending))
+            if len(self.mnemonic_index_map) > pending or (self.raise_on_error and len(self.mnemonic_index_map) != pending):
+                _breach('LASSectionArray.finalise', 'index map has %d entries for %d frames' % (len(self.mnemonic_index_map), pending))
+            for i, ch in enumerate(self.frame_array.channels):
+                if i == 0:
+                    continue
+                arr = ch.array
+                if not isinstance(arr, np.ma.MaskedArray):
+                    _breach('LASSectionArray.finalise', 'channel %r not masked after finalise' % (ch.ident,))
+                    continue
+                data = np.ma.getdata(arr)
+                if data.dtype == object:
+                    want = np.array([[x is None for x in row] for row in data.reshape(len(data), -1)]).reshape(data.shape)
+                else:
+                    want = (data == float(self._null))
+                if not np.array_equal(np.ma.getmaskarray(arr), want):
+                    _breach('LASSectionArray.finalise', 'mask of channel %r is not (data == null %r)' % (ch.ident, self._null))
+
+    K = LR.LASSectionArray
+    K.add_member_line = icontract.snapshot(las_members_before, name='las_members_before')(
+        icontract.ensure(las_line_ok, error=LASContractBroken)(K.add_member_line))
+    K.finalise = icontract.snapshot(las_pending_frames, name='las_pending_frames')(
+        icontract.ensure(las_finalised, error=LASContractBroken)(K.finalise))
+
+
+# ------------------------------------------------------------------ LIS FrameSet / RLEType01 (C06)
+def install_lis_frameset_contracts():
+    """Contracts on LIS.core.FrameSet.FrameSet and LIS.core.Rle.RLEType01 (record and return True)."""
+    if 'lis_frameset' in _installed:
+        return
+    _installed.add('lis_frameset')
+    import math
+    import icontract
+    from TotalDepth.LIS.core import FrameSet as FS
+    from TotalDepth.LIS.core import Rle as R
+
+    class LisFrameSetContractBroken(Exception):
+        pass
+
+    # ---- RLEType01.tellLrForFrame(fNum) -> (tell of the record, frame offset in the record)
+    def lis_tell_consistent(self, fNum, result):
+        return _lis_tell_consistent(self, fNum, result)
+
+    @_guarded
+    def _lis_tell_consistent(self, fNum, result):
+        COUNTS['RLEType01.tellLrForFrame'] += 1
+        tell, off = result
+        n = 0
+        for item in self.rle_items:
+            for t, nf, _x in item.values():      # sequential walk, the method under contract uses random access
+                if fNum < n + nf:
+                    if (t, fNum - n) != (tell, off):
+                        _breach('RLEType01.tellLrForFrame', 'frame %d: returned (0x%x, %d), sequential walk gives (0x%x, %d)' % (
+                            fNum, tell, off, t, fNum - n))
+                    return
+                n += nf
+        _breach('RLEType01.tellLrForFrame', 'frame %d: returned (0x%x, %d) but only %d frames are recorded' % (fNum, tell, off, n))
+
+    def lis_total_consistent(self, result):
+        return _lis_total_consistent(self, result)
+
+    @_guarded
+    def _lis_total_consistent(self, result):
+        COUNTS['RLEType01.totalFrames'] += 1
+        n = sum(nf for item in self.rle_items for _t, nf, _x in item.values())
+        if n != result:
+            _breach('RLEType01.totalFrames', 'totalFrames()=%r, sequential walk counts %d' % (result, n))
+
+    R.RLEType01.tellLrForFrame = icontract.ensure(lis_tell_consistent, error=LisFrameSetContractBroken)(R.RLEType01.tellLrForFrame)
+    R.RLEType01.totalFrames = icontract.ensure(lis_total_consistent, error=LisFrameSetContractBroken)(R.RLEType01.totalFrames)
+
+    # ---- FrameSet.__init__: the array is the requested sub-matrix shape
+    def lis_frameset_shape(self, theDfsr, theFrameSlice):
+        return _lis_frameset_shape(self, theDfsr, theFrameSlice)
+
+    @_guarded
+    def _lis_frameset_shape(self, theDfsr, theFrameSlice):
+        COUNTS['FrameSet.__init__'] += 1
+        chans = list(self.genExtChIndexes())
+        if chans != sorted(set(chans)) or any(c < 0 or c >= len(theDfsr.dsbBlocks) for c in chans):
+            _breach('FrameSet.__init__', 'channel indexes not sorted/unique/in range: %r' % chans)
+            return
+        nvals = 0
+        for c in chans:
+            b = theDfsr.dsbBlocks[c]
+            nvals += b.values()
+        nfr = len(range(theFrameSlice.start or 0, theFrameSlice.stop, theFrameSlice.step or 1))
+        if self.frames.shape != (nfr, nvals):
+            _breach('FrameSet.__init__', 'array shape %r, slice %r and channels %r need (%d, %d)' % (
+                self.frames.shape, theFrameSlice, chans, nfr, nvals))
+        if theDfsr.ebs.recordingMode == 1 and len(self._indrXVector) != nfr:
+            _breach('FrameSet.__init__', 'implied X vector has %d entries for %d frames' % (len(self._indrXVector), nfr))
+
+    # ---- FrameSet.setFrameBytes(by, fr, chFrom, chTo): the frame exists, the byte count is that of the named channels
+    def lis_setbytes_pre(self, by, fr, chFrom, chTo):
+        return _lis_setbytes_pre(self, by, fr, chFrom, chTo)
+
+    @_guarded
+    def _lis_setbytes_pre(self, by, fr, chFrom, chTo):
+        COUNTS['FrameSet.setFrameBytes:pre'] += 1
+        if not 0 <= fr < len(self._frames):
+            _breach('FrameSet.setFrameBytes', 'frame %r outside the %d loaded frames' % (fr, len(self._frames)))
+        need = 0
+        if chFrom is None:
+            from TotalDepth.LIS.core import RepCode
+            need += RepCode.lisSize(self.xAxisDecl.depthRepCode)
+        if chTo is not None:
+            for ch in range(chFrom or 0, chTo + 1):
+                need += self._catS[self.internalChIdx(ch)].lisSize
+        if need != len(by):
+            _breach('FrameSet.setFrameBytes', 'frame %r channels %r..%r need %d bytes, given %d' % (fr, chFrom, chTo, need, len(by)))
+
+    def lis_setbytes_post(self, fr, chFrom, chTo):
+        return _lis_setbytes_post(self, fr, chFrom, chTo)
+
+    @_guarded
+    def _lis_setbytes_post(self, fr, chFrom, chTo):
+        COUNTS['FrameSet.setFrameBytes:post'] += 1
+        if chTo is not None and 0 <= fr < len(self._frames):
+            a = self.valueIdxStartExtCh(chFrom or 0)
+            last = self.internalChIdx(chTo)
+            b = self._intChValIdxS[last] + self._catS[last].numValues
+            row = self._frames[fr, a:b]
+            if not all(math.isfinite(v) for v in row):
+                _breach('FrameSet.setFrameBytes', 'frame %d channels %r..%r hold non-finite values after the write' % (fr, chFrom, chTo))
+        if chFrom is None and 0 <= fr < len(self._frames) and not math.isfinite(self._indrXVector[fr]):
+            _breach('FrameSet.setFrameBytes', 'implied X of frame %d not finite after the write' % fr)
+
+    def lis_setx_pre(self, fr, val):
+        return _lis_setx_pre(self, fr, val)
+
+    @_guarded
+    def _lis_setx_pre(self, fr, val):
+        COUNTS['FrameSet.setIndirectX'] += 1
+        if self._indrXVector is None or not 0 <= fr < len(self._indrXVector):
+            _breach('FrameSet.setIndirectX', 'frame %r outside the implied X vector' % (fr,))
+        elif not math.isfinite(val):
+            _breach('FrameSet.setIndirectX', 'frame %d: X value %r' % (fr, val))
+
+    K = FS.FrameSet
+    K.__init__ = icontract.ensure(lis_frameset_shape, error=LisFrameSetContractBroken)(K.__init__)
+    K.setFrameBytes = icontract.require(lis_setbytes_pre, error=LisFrameSetContractBroken)(
+        icontract.ensure(lis_setbytes_post, error=LisFrameSetContractBroken)(K.setFrameBytes))
+    K.setIndirectX = icontract.require(lis_setx_pre, error=LisFrameSetContractBroken)(K.setIndirectX)
+
+
+# ------------------------------------------------------------------ RP66V1 frame arrays (C04)
+def install_rp66v1_framearray_contracts():
+    """Contracts on the live frame-array classes used by LogicalFile.populate_frame_array:
+
+    FrameArray.init_arrays(n)            every channel array has shape (n, *dimensions) and the channel's dtype
+    FrameArray.init_arrays_partial(n, S) channel 0 and the channels named in S have shape (n, *dimensions), all others (0, *dimensions)
+    RP66V1FrameChannel.read(ld, f)       consumes exactly count * size(rep_code) bytes of the logical data
+    RP66V1FrameChannel.seek(ld)          advances the logical data by exactly count * size(rep_code) bytes and stores nothing
+    (sizes from RP66V1 Appendix B, written here).
+    """
+    if 'rp66v1_framearray' in _installed:
+        return
+    _installed.add('rp66v1_framearray')
+    import icontract
+    import numpy as np
+    from TotalDepth.common import LogPass as CLP
+    from TotalDepth.RP66V1.core import LogPass as RLP
+
+    class FrameArrayContractBroken(Exception):
+        pass
+
+    size_of = {1: 2, 2: 4, 3: 8, 4: 12, 5: 4, 6: 4, 7: 8, 8: 16, 9: 24, 10: 8, 11: 16, 12: 1, 13: 2, 14: 4, 15: 1, 16: 2, 17: 4, 21: 8, 26: 1}
+
+    def _shape_ok(name, ch, want):
+        if tuple(ch.array.shape) != (want,) + tuple(ch.dimensions) or ch.array.dtype != np.dtype(ch.np_dtype):
+            _breach(name, 'channel %r: array shape %r dtype %s, expected %r dtype %s' % (
+                ch.ident, tuple(ch.array.shape), ch.array.dtype, (want,) + tuple(ch.dimensions), np.dtype(ch.np_dtype)))
+
+    def fa_init_all(self, number_of_frames):
+        return _fa_init_all(self, number_of_frames)
+
+    @_guarded
+    def _fa_init_all(self, number_of_frames):
+        COUNTS['FrameArray.init_arrays'] += 1
+        for ch in self.channels:
+            _shape_ok('FrameArray.init_arrays', ch, number_of_frames)
+
+    def fa_init_partial(self, number_of_frames, channels):
+        return _fa_init_partial(self, number_of_frames, channels)
+
+    @_guarded
+    def _fa_init_partial(self, number_of_frames, channels):
+        COUNTS['FrameArray.init_arrays_partial'] += 1
+        for c, ch in enumerate(self.channels):
+            _shape_ok('FrameArray.init_arrays_partial', ch, number_of_frames if (c == 0 or ch.ident in channels) else 0)
+
+    def fc_read_consumes(self, ld, frame_number, OLD):
+        return _fc_read_consumes(self, ld, frame_number, OLD)
+
+    @_guarded
+    def _fc_read_consumes(self, ld, frame_number, OLD):
+        COUNTS['RP66V1FrameChannel.read'] += 1
+        want = size_of.get(self.rep_code, 0) * self.count
+        if ld.index - OLD.tdv_index != want:
+            _breach('RP66V1FrameChannel.read', 'channel %r rep code %r count %r consumed %d bytes, expected %d' % (
+                self.ident, self.rep_code, self.count, ld.index - OLD.tdv_index, want))
+
+    def fc_seek_skips(self, ld, OLD):
+        return _fc_seek_skips(self, ld, OLD)
+
+    @_guarded
+    def _fc_seek_skips(self, ld, OLD):
+        COUNTS['RP66V1FrameChannel.seek'] += 1
+        want = size_of.get(self.rep_code, 0) * self.count
+        if ld.index - OLD.tdv_index != want:
+            _breach('RP66V1FrameChannel.seek', 'channel %r rep code %r count %r skipped %d bytes, expected %d' % (
+                self.ident, self.rep_code, self.count, ld.index - OLD.tdv_index, want))
+        if len(self.array) != 0:
+            _breach('RP66V1FrameChannel.seek', 'channel %r was skipped but holds %d frames' % (self.ident, len(self.array)))
+
+    def _index_of(ld):
+        return ld.index
+
+    A = CLP.FrameArray
+    A.init_arrays = icontract.ensure(fa_init_all, error=FrameArrayContractBroken)(A.init_arrays)
+    A.init_arrays_partial = icontract.ensure(fa_init_partial, error=FrameArrayContractBroken)(A.init_arrays_partial)
+    C = RLP.RP66V1FrameChannel
+    C.read = icontract.snapshot(_index_of, name='tdv_index')(icontract.ensure(fc_read_consumes, error=FrameArrayContractBroken)(C.read))
+    C.seek = icontract.snapshot(_index_of, name='tdv_index')(icontract.ensure(fc_seek_skips, error=FrameArrayContractBroken)(C.seek))
